@@ -52,11 +52,21 @@ Proof.
   unfold TrxdRxRT.usbits. rewrite map_length. exact Hrule.
 Qed.
 
-(* what the current length rule gives: everything except the legacy-padded GMSK burst *)
-Lemma acc_rx0_rule legacy n : (n = 148%nat \/ n = 444%nat) -> (legacy = false \/ n = 444%nat) ->
-  rule_at (n + length (legacy_pad legacy 0)) = Ok n.
+(* the length rule of the source answers |burst| for GMSK and EDGE, with and without the two legacy padding octets *)
+Lemma acc_rx0_rule legacy n : (n = 148%nat \/ n = 444%nat) -> rule_at (n + length (legacy_pad legacy 0)) = Ok n.
 Proof.
-  destruct rule_points as [R1 [R2 R3]]. intros [-> | ->] [-> | E]; try discriminate; try (destruct legacy); cbn [legacy_pad andb Z.eqb length Nat.add]; assumption.
+  destruct rule_points as [R1 [R2 [R3 R4]]]. intros [-> | ->]; destruct legacy; cbn [legacy_pad andb Z.eqb length Nat.add]; assumption.
+Qed.
+
+(* every version-0 Rx datagram of the message codec, legacy padding on or off, GMSK or EDGE *)
+Lemma acc_rx0_all legacy m b : Trxd.gen_rx legacy m = Trxd.Ok b -> Trxd.r_ver m = 0 ->
+  (match Trxd.r_burst m with Some bs => Forall (fun s => -128 <= s <= 127) bs | None => True end) ->
+  exists fn tn rssi toa bs, Trxd.r_fn m = Some fn /\ Trxd.r_tn m = Some tn /\ Trxd.r_rssi m = Some rssi /\ Trxd.r_toa m = Some toa /\
+    Trxd.r_burst m = Some bs /\
+    decode true pdu_v0_rx b = Ok (rx0_fields tn fn rssi toa (TrxdRxRT.usbits bs) (legacy_pad legacy 0), length b).
+Proof.
+  intros Hg Hv Hs. destruct (acc_rx0 legacy m b Hg Hv Hs) as [fn [tn [rssi [toa [bs [E1 [E2 [E3 [E4 [E5 [Hl Hacc]]]]]]]]]]].
+  exists fn, tn, rssi, toa, bs. repeat (split; [assumption|]). apply Hacc. apply acc_rx0_rule. exact Hl.
 Qed.
 
 (* ---------------------------------------------------------------- Rx, version 1 *)
@@ -115,12 +125,7 @@ Proof.
 Qed.
 
 (* ---------------------------------------------------------------- the recorded defects, as refuted strengthenings *)
-(* (a) a legacy-padded GMSK datagram (148 soft bits + 2 padding octets) is rejected by PDUv0Rx: with 150 octets left the
-   length rule of the source answers 444 *)
-Lemma v0rx_legacy_gmsk_refuted :
-  rule_at 150 = Ok 444%nat /\
-  decode true pdu_v0_rx ([0; 0; 0; 0; 0; 60; 0; 0] ++ repeat 127 148 ++ [0; 0]) = DecodeErr 0.
-Proof. split; vm_compute; reflexivity. Qed.
+(* (a) c17-v0rx-legacy-gmsk-rejected was repaired in the source (rule `> 148 + 2`): see acc_rx0_all *)
 (* (b) MTS code 7 = GMSK access burst with TSC set 1, which the message codec emits as valid, has no burst length *)
 Lemma mts_0111_unknown_refuted :
   assocZ (Trxd.mod_coding 2 + 1) burst_tab = None /\ burst_len_unknown = [7] /\
